@@ -145,7 +145,7 @@ func (h *headServer) ServeHTTP(w http.ResponseWriter, r *http.Request) {
 
 func TestCheck(t *testing.T) {
 	r := vp.New("C03", "exploration",
-		"publisher side: every root of a 10-CID alphabet (v0, v1 x 3 codecs x 3 hash functions) x 4 topics (none, ascii, unicode, 256 bytes) x key types: the real Publisher's /head answer is validated by the reference. Client side: for each of a corpus of valid encoded heads (key types x topics) served verbatim to the real Syncer.GetHead (libp2p-HTTP discovery and plain HTTP): every single-byte substitution, every truncation, and field-level alterations (CID replaced, topic added/removed/changed, key of another identity of the same and another type, signature of another head, key+signature swapped between two valid heads, re-signed by another identity, empty key, empty signature); every field-level alteration served cold (fresh Syncer) and after each of 5 histories of valid heads on a reused Syncer ([valid], [other root], [valid, other], [other, valid], [valid, valid]), each altered head served up to 3 times in a row, followed by both valid heads again; every byte-level alteration right after the valid head on a reused Syncer (every 8th also cold); every alteration class also through Subscriber.SyncAdChain, cold and after a healthy sync with a head query (altered head derived from the head served before, and from the current one). Non-trivial: every altered head. Distinct = distinct (head, alteration).",
+		"publisher side: every root of a 10-CID alphabet (v0, v1 x 3 codecs x 3 hash functions) x 4 topics (none, ascii, unicode, 256 bytes) x key types: the real Publisher's /head answer is validated by the reference; one publisher taken through every ordered pair of roots (root, other root, first root again), the head verified after every change. Client side: for each of a corpus of valid encoded heads (key types x topics) served verbatim to the real Syncer.GetHead (libp2p-HTTP discovery and plain HTTP): every single-byte substitution, every truncation, and field-level alterations (CID replaced, topic added/removed/changed, key of another identity of the same and another type, signature of another head, key+signature swapped between two valid heads, re-signed by another identity, empty key, empty signature); every field-level alteration served cold (fresh Syncer) and after each of 5 histories of valid heads on a reused Syncer ([valid], [other root], [valid, other], [other, valid], [valid, valid]), each altered head served up to 3 times in a row, followed by both valid heads again; every byte-level alteration right after the valid head on a reused Syncer (every 8th also cold); every alteration class also through Subscriber.SyncAdChain, cold and after a healthy sync with a head query (altered head derived from the head served before, and from the current one). Non-trivial: every altered head. Distinct = distinct (head, alteration).",
 		"reference validator (generic DAG-JSON decode + libp2p crypto) is the oracle; an altered encoding is required to be rejected only when the reference rejects it (byte changes that alter no value are not alterations)",
 		"announce-triggered syncs do not query the head and are out of this property's reach",
 		"ECDSA signatures are randomised by the signer (libp2p/crypto), so the encoded ECDSA head, and with it the number of byte positions enumerated, varies by a few bytes between runs; every other fixture is deterministic",
@@ -198,6 +198,46 @@ func TestCheck(t *testing.T) {
 					r.Violation("publisher:topic-missing", key, "configured topic is not in the served head", nil)
 				}
 				r.Outcome("publisher-ok")
+			}
+		}
+	}
+
+	// (i-b) one publisher taken through two roots in turn (every ordered pair of
+	// the root alphabet, which contains the same digest under several codecs
+	// and CID versions): what it serves as the head always verifies for the
+	// root it has at that moment
+	for _, kt := range fixture.KeyTypes {
+		id := fixture.Key(kt, 0)
+		for ti, topic := range topics[:2] {
+			roots := rootAlphabet()
+			for i, r1 := range roots {
+				for j, r2 := range roots {
+					key := fmt.Sprintf("pub-sequence|%s|topic%d|root%d>root%d", kt, ti, i, j)
+					if !r.Mine(key) {
+						continue
+					}
+					r.Eval(key, true)
+					st := syncfx.NewStore()
+					pub, err := ipnisync.NewPublisher(st.LinkSystem(), id.Priv, ipnisync.WithStartServer(false), ipnisync.WithHTTPListenAddrs("http://pub.test:80"), ipnisync.WithHeadTopic(topic))
+					if err != nil {
+						panic(err)
+					}
+					for step, root := range []cid.Cid{r1, r2, r1} {
+						pub.SetRoot(root)
+						rec := httptest.NewRecorder()
+						req := httptest.NewRequest("GET", "http://pub.test:80/ipni/v1/ad/head", nil)
+						if pn, pm := vp.Guard(func() { pub.ServeHTTP(rec, req) }); pn {
+							r.Violation("publisher:panic", key, firstLine(pm), nil)
+							break
+						}
+						c, signer, ok, why := refValidate(rec.Body.Bytes(), id.ID)
+						if rec.Code != 200 || !ok || !c.Equals(root) || signer != id.ID {
+							r.Violation("publisher:served-head-does-not-verify-after-root-change:"+kt, key, fmt.Sprintf("step %d: root set to %s; the head served (status %d) gives reference ok=%v (%s) cid=%s signer=%s", step, root, rec.Code, ok, why, c, signer), nil)
+							break
+						}
+					}
+					pub.Close()
+				}
 			}
 		}
 	}
